@@ -1,7 +1,23 @@
-/* C11 driver for trxcon's timeslot configuration: #includes the REAL sched_trx.c (l1sched_configure_ts(), LAYOUT_HAS_LCHAN,
- * l1sched_find_lchan_by_type()), the REAL sched_mframe.c and sched_lchan_desc.c.
- * stdin: "cfg tn" per line -> "rc t0 t1 ..." : return code of l1sched_configure_ts() followed by every lchan type that has a
- * channel state afterwards (asked through l1sched_find_lchan_by_type for every type 0 .. _L1SCHED_CHAN_MAX-1). */
+/* C11 driver for trxcon's timeslot configuration and frame lookups: #includes the REAL sched_trx.c (l1sched_configure_ts(),
+ * LAYOUT_HAS_LCHAN, l1sched_find_lchan_by_type(), l1sched_activate_lchan(), l1sched_handle_rx_burst() with its static helper
+ * subst_frame_loss(), l1sched_pull_burst(), l1sched_handle_rx_probe()), the REAL sched_mframe.c and sched_lchan_desc.c.
+ * The per-channel burst handlers (rx_xxx_fn / tx_xxx_fn, forward-declared in sched_lchan_desc.c) are generated recording stubs
+ * (vp/props/C11.py write_incs(), #ifdef C11_HANDLERS_REC): each call is stored as (lchan->type, fn, bid, substituted?, is this
+ * the handler l1sched_lchan_desc[] names for that lchan type?).
+ *
+ * no argument   stdin: "cfg tn" per line -> "rc t0 t1 ..." : return code of l1sched_configure_ts() followed by every lchan type
+ *               that has a channel state afterwards (asked through l1sched_find_lchan_by_type for every type 0 .. _L1SCHED_CHAN_MAX-1).
+ * rx|tx|probe   stdin: one case per line
+ *                   cfg tn actmask npoke (type np_hi np_lo nlost last_proc)*npoke n fn*n
+ *               the timeslot is (re)configured with the real l1sched_configure_ts(cfg), every lchan type whose bit is set in actmask
+ *               is activated through the real l1sched_activate_lchan(), the TDMA statistics of the poked channel states are
+ *               overwritten (num_proc = np_hi * 2^32 + np_lo), then the n frame numbers go, in order, through
+ *                 rx:    l1sched_handle_rx_burst()  (bi->bid preset to 255)   -> per burst "rc bid ncalls (type fn bid subst hok)*"
+ *                 tx:    l1sched_pull_burst()       (br->bid preset to 255)   -> per frame "bid ncalls (type fn bid hok)*"
+ *                 probe: l1sched_handle_rx_probe()  (flags preset to 0)       -> per frame "rc flags"
+ *               output line: "rc_configure" then (layout with period 0: "-2" and nothing else - the lookup would divide by zero)
+ *               the per-frame groups, then "nstates (type active np_hi np_lo nlost last_proc)*" for every channel state.
+ *               A malformed line answers "-999". Output is flushed per line (a sanitizer stop is attributed to the next line). */
 #include <stdio.h>
 #include <stdlib.h>
 #include <string.h>
@@ -14,9 +30,11 @@
 
 #define E(x)
 #define F(x)
-#define C11_HANDLERS 1
+#define C11_HANDLERS_REC 1
+static int c11_rec_rx(struct l1sched_lchan_state *lchan, const struct l1sched_burst_ind *bi, l1sched_lchan_rx_func *self);
+static int c11_rec_tx(struct l1sched_lchan_state *lchan, struct l1sched_burst_req *br, l1sched_lchan_tx_func *self);
 #include "c11_trxcon_names.inc"
-#undef C11_HANDLERS
+#undef C11_HANDLERS_REC
 #undef F
 #undef E
 
@@ -37,12 +55,158 @@ void msgb_free(struct msgb *m) { }
 const char *msgb_hexdump_l2(const struct msgb *msg) { return ""; }
 void osmo_a5(int n, const uint8_t *key, uint32_t fn, ubit_t *dl, ubit_t *ul) { abort(); }
 
-int main(void)
+/* ---- recorder */
+struct c11_rec { int type; uint32_t fn; int bid; int subst; int hok; };
+#define C11_MAXREC 1024
+static struct c11_rec c11_recs[C11_MAXREC];
+static unsigned c11_nrec;
+static const struct l1sched_burst_ind *c11_cur_bi; /* the burst the harness itself handed in (anything else is a substituted one) */
+
+static int c11_rec_rx(struct l1sched_lchan_state *lchan, const struct l1sched_burst_ind *bi, l1sched_lchan_rx_func *self)
+{
+	if (c11_nrec < C11_MAXREC) {
+		struct c11_rec *r = &c11_recs[c11_nrec];
+		r->type = (int)lchan->type; r->fn = bi->fn; r->bid = bi->bid; r->subst = (bi != c11_cur_bi);
+		r->hok = ((unsigned)lchan->type < _L1SCHED_CHAN_MAX && l1sched_lchan_desc[lchan->type].rx_fn == self);
+	}
+	c11_nrec++;
+	return 0;
+}
+
+static int c11_rec_tx(struct l1sched_lchan_state *lchan, struct l1sched_burst_req *br, l1sched_lchan_tx_func *self)
+{
+	if (c11_nrec < C11_MAXREC) {
+		struct c11_rec *r = &c11_recs[c11_nrec];
+		r->type = (int)lchan->type; r->fn = br->fn; r->bid = br->bid; r->subst = 0;
+		r->hok = ((unsigned)lchan->type < _L1SCHED_CHAN_MAX && l1sched_lchan_desc[lchan->type].tx_fn == self);
+	}
+	c11_nrec++;
+	return 0;
+}
+
+/* ---- case lines */
+#define C11_MAXTOK 4096
+static long long tok[C11_MAXTOK];
+
+static int parse_line(char *line)
+{
+	int n = 0;
+	char *p = line, *e;
+	for (;;) {
+		while (*p == ' ' || *p == '\t' || *p == '\n' || *p == '\r') p++;
+		if (!*p) break;
+		if (n >= C11_MAXTOK) return -1;
+		tok[n++] = strtoll(p, &e, 10);
+		if (e == p) return -1;
+		p = e;
+	}
+	return n;
+}
+
+enum { M_RX, M_TX, M_PROBE };
+
+static void run_case(struct l1sched_state *sched, int mode, int ntok)
+{
+	long long cfg, tn, actmask, npoke, n;
+	int i, k, rc, type;
+	struct l1sched_ts *ts;
+	struct l1sched_lchan_state *lchan;
+	static struct l1sched_burst_ind bi;
+	static struct l1sched_burst_req br;
+
+	if (ntok < 5) goto bad;
+	cfg = tok[0]; tn = tok[1]; actmask = tok[2]; npoke = tok[3];
+	if (tn < 0 || tn > 7 || cfg < 0 || cfg > 100000 || actmask < 0 || npoke < 0 || npoke > 64 || 4 + 5 * npoke + 1 > ntok) goto bad;
+	n = tok[4 + 5 * npoke];
+	if (n < 0 || 4 + 5 * npoke + 1 + n != ntok) goto bad;
+	for (i = 0; i < npoke; i++) {
+		long long *q = &tok[4 + 5 * i];
+		if (q[0] < 0 || q[0] >= _L1SCHED_CHAN_MAX || q[1] < 0 || q[1] > 0xffffffffLL || q[2] < 0 || q[2] > 0xffffffffLL ||
+		    q[3] < 0 || q[3] > 0xffffffffLL || q[4] < 0 || q[4] > 0xffffffffLL) goto bad;
+	}
+	for (i = 0; i < n; i++)
+		if (tok[5 + 5 * npoke + i] < 0 || tok[5 + 5 * npoke + i] > 0xffffffffLL) goto bad;
+
+	rc = l1sched_configure_ts(sched, (int)tn, (enum gsm_phys_chan_config)cfg);
+	printf("%d", rc);
+	ts = sched->ts[tn];
+	if (ts != NULL && ts->mf_layout != NULL && ts->mf_layout->period == 0) { printf(" -2\n"); return; }
+	if (rc == 0 && ts != NULL) {
+		for (type = 0; type < _L1SCHED_CHAN_MAX; type++)
+			if (type < 62 && ((actmask >> type) & 1))
+				l1sched_activate_lchan(ts, (enum l1sched_lchan_type)type);
+		for (i = 0; i < npoke; i++) {
+			long long *q = &tok[4 + 5 * i];
+			lchan = l1sched_find_lchan_by_type(ts, (enum l1sched_lchan_type)q[0]);
+			if (lchan == NULL) continue;
+			lchan->tdma.num_proc = ((unsigned long)q[1] << 32) | (unsigned long)q[2];
+			lchan->tdma.num_lost = (unsigned long)q[3];
+			lchan->tdma.last_proc = (uint32_t)q[4];
+		}
+	}
+	for (i = 0; i < n; i++) {
+		uint32_t fn = (uint32_t)tok[5 + 5 * npoke + i];
+		c11_nrec = 0;
+		if (mode == M_RX) {
+			memset(&bi, 0, sizeof(bi));
+			bi.fn = fn; bi.tn = (uint8_t)tn; bi.rssi = -60; bi.bid = 255; bi.burst_len = GSM_NBITS_NB_GMSK_BURST;
+			c11_cur_bi = &bi;
+			rc = l1sched_handle_rx_burst(sched, &bi);
+			printf(" %d %u %u", rc, (unsigned)bi.bid, c11_nrec);
+		} else if (mode == M_TX) {
+			memset(&br, 0, sizeof(br));
+			br.fn = fn; br.tn = (uint8_t)tn; br.bid = 255; br.burst_len = GSM_NBITS_NB_GMSK_BURST;
+			l1sched_pull_burst(sched, &br);
+			printf(" %u %u", (unsigned)br.bid, c11_nrec);
+		} else {
+			struct l1sched_probe pr = { .flags = 0, .fn = fn, .tn = (uint8_t)tn };
+			rc = l1sched_handle_rx_probe(sched, &pr);
+			printf(" %d %u", rc, (unsigned)pr.flags);
+		}
+		if (c11_nrec > C11_MAXREC) { printf(" -997\n"); return; }
+		for (k = 0; k < (int)c11_nrec; k++) {
+			const struct c11_rec *r = &c11_recs[k];
+			if (mode == M_RX) printf(" %d %u %d %d %d", r->type, (unsigned)r->fn, r->bid, r->subst, r->hok);
+			else printf(" %d %u %d %d", r->type, (unsigned)r->fn, r->bid, r->hok);
+		}
+	}
+	/* the channel states afterwards */
+	k = 0;
+	if (ts != NULL && ts->mf_layout != NULL)
+		for (type = 0; type < _L1SCHED_CHAN_MAX; type++)
+			if (l1sched_find_lchan_by_type(ts, type) != NULL) k++;
+	printf(" %d", k);
+	if (k)
+		for (type = 0; type < _L1SCHED_CHAN_MAX; type++)
+			if ((lchan = l1sched_find_lchan_by_type(ts, type)) != NULL)
+				printf(" %d %d %lu %lu %lu %u", type, lchan->active ? 1 : 0, (unsigned long)(lchan->tdma.num_proc >> 32),
+				       (unsigned long)(lchan->tdma.num_proc & 0xffffffffUL), lchan->tdma.num_lost, (unsigned)lchan->tdma.last_proc);
+	printf("\n");
+	return;
+bad:
+	printf("-999\n");
+}
+
+int main(int argc, char **argv)
 {
 	const struct l1sched_cfg cfg = { .log_prefix = "c11: " };
 	struct l1sched_state *sched = l1sched_alloc(NULL, &cfg, NULL);
 	long c, tn;
 	if (!sched) { printf("ALLOC-FAILED\n"); return 2; }
+	if (argc > 1) {
+		int mode = !strcmp(argv[1], "rx") ? M_RX : !strcmp(argv[1], "tx") ? M_TX : !strcmp(argv[1], "probe") ? M_PROBE : -1;
+		char *line = NULL; size_t cap = 0;
+		if (mode < 0 || sizeof(unsigned long) != 8) { fprintf(stderr, "usage: %s [rx|tx|probe] (LP64 only)\n", argv[0]); return 2; }
+		/* every timeslot is configured once with a real combination: a timeslot whose FIRST configuration fails keeps an
+		 * uninitialised list of channel states that the next (re)configuration would walk (outside C11) */
+		for (tn = 0; tn < 8; tn++)
+			if (l1sched_configure_ts(sched, (int)tn, GSM_PCHAN_CCCH) != 0) { printf("INIT-FAILED\n"); return 2; }
+		while (getline(&line, &cap, stdin) > 0) {
+			run_case(sched, mode, parse_line(line));
+			fflush(stdout);
+		}
+		return 0;
+	}
 	while (scanf("%ld %ld", &c, &tn) == 2) {
 		int rc, type;
 		if (tn < 0 || tn > 7) { printf("-998\n"); continue; }
